@@ -72,6 +72,8 @@ ROUTINES = {
     92: ("psth", False, ("py",)),
     93: ("poisson_spikes", False, ("py",)),
     94: ("history", False, ("py", "cy")),
+    95: ("optimal_sorting_from_matrix", False, ("cy",)),
+    96: ("permutate_matrix", False, ("py", "cy")),
 }
 
 
@@ -415,6 +417,39 @@ class Impl(object):
                                                    **self.kw(rc, m))
 
     # -- L4
+    # -- beyond the listed properties: simulated annealing with a scripted rand() (coq/ModelSort.v)
+    def r95(self, D, pat):
+        import sys
+        sa = self.mods["cython_simulated_annealing"]
+        pat = [int(x) for x in pat]
+        k = [0]
+
+        class Draw(object):
+            """what the scripted rand() returns: usable as `rand() % (N-1)` and as `1.0*rand()`;
+            a draw of 0 is presented to the Metropolis comparison as -1 (accept whatever exp gives,
+            even its underflow to 0.0), a draw v >= 1 as v (RAND_MAX stand-in 1: reject)"""
+            def __init__(self, v):
+                self.v = v
+
+            def __mod__(self, m):
+                return self.v % m
+
+            def __rmul__(self, other):
+                return -1.0 if self.v == 0 else float(self.v)
+
+        def rand():
+            v = pat[k[0] % len(pat)] if pat else 0
+            k[0] += 1
+            return Draw(v)
+        sa.rand = rand
+        m = sys.modules["pyspike.spike_directionality"]
+        p, A, it = m._optimal_spike_train_sorting_from_matrix(np.array(fl(D), dtype=float), full_output=True)
+        return [[int(x) for x in p], float(A), int(it)]
+
+    def r96(self, D, p):
+        Dn = np.array(fl(D), dtype=float)
+        return [self.ps.permutate_matrix(Dn, [int(x) for x in p]), float(np.sum(np.triu(Dn, 0)))]
+
     def r80(self, l):
         return self.ps.merge_spike_trains(self.trains(l))
 
